@@ -133,6 +133,10 @@ def showRowVals (full : Bool) (pre : String) (r : Row Q) : List String :=
 def showKey (k : Key) : String :=
   s!"ts={k.ts} metric={k.metric} tags={showSparse (fun (x : Int) => x == 0) toString k.tags} stags={showSparse (fun (x : Str) => x.isEmpty) String.ofList k.stags}"
 
+/-- Key.MarshalAppend: fixed-width fields as numbers, the string-tag section as hex bytes -/
+def showMarshalled (m : Marshalled) : String :=
+  s!"mk ts={m.ts} metric={m.metric} tags={showList m.tags} sb={showHex (m.stagBytes.map (fun c => UInt8.ofNat c.toNat))}"
+
 /-! steps -/
 
 def parseTags? (s : String) : Option (List Tag) := (parseList s).mapM parseTag?
@@ -178,7 +182,7 @@ def step (st : St) (toks : List String) : St × List String :=
     | some metric, some ts, some bts, some tags, some stags =>
       if tags.any (fun p => p.1 ≥ maxTags) || stags.any (fun p => p.1 ≥ maxTags) then (st, ["bad-op"]) else
       let k : Key := ⟨ts, metric, sparse 0 tags, sparse [] stags⟩
-      ({ st with rows := st.rows.push { row := Row.empty k, bucketTs := bts }, cur := st.rows.size }, ["key " ++ showKey k])
+      ({ st with rows := st.rows.push { row := Row.empty k, bucketTs := bts }, cur := st.rows.size }, ["key " ++ showKey k, showMarshalled (marshalKey k)])
     | _, _, _, _, _ => (st, ["bad-op"])
   | ["ev", "c", top, count, host, pick, cap, rd, rounds, evk] =>
     match parseTag? top, parseQ? count, parseTag? host, parseBool? pick with
